@@ -36,7 +36,15 @@ type checker struct {
 	viol      map[string]*agg
 	tables    map[string]map[string]int64
 	modelBugs int
+	sampled   map[string]int
+
+	// encode-side violations, kept structured until report() so that a
+	// failure that does not depend on the segmentation gets one key.
+	enc     map[encKey]*agg
+	encSegs map[string]map[string]bool // length class -> segmentations run
 }
+
+type encKey struct{ seg, lenClass, kind string }
 
 func newChecker(r *mon.Run) *checker {
 	return &checker{r: r, viol: map[string]*agg{}, tables: map[string]map[string]int64{}}
@@ -67,6 +75,65 @@ func (c *checker) violate(key string, w witness) {
 	}
 }
 
+func (c *checker) encodeRan(seg, lenClass string) {
+	c.mu.Lock()
+	if c.encSegs == nil {
+		c.encSegs = map[string]map[string]bool{}
+	}
+	if c.encSegs[lenClass] == nil {
+		c.encSegs[lenClass] = map[string]bool{}
+	}
+	c.encSegs[lenClass][seg] = true
+	c.mu.Unlock()
+}
+
+func (c *checker) violateEncode(k encKey, w witness) {
+	w.text = append([]byte(nil), w.text...)
+	c.mu.Lock()
+	defer c.mu.Unlock()
+	if c.enc == nil {
+		c.enc = map[encKey]*agg{}
+	}
+	a := c.enc[k]
+	if a == nil {
+		c.enc[k] = &agg{count: 1, w: w}
+		return
+	}
+	a.count++
+	if less(w, a.w) {
+		a.w = w
+	}
+}
+
+// foldEncode turns the structured encode-side violations into keys:
+// encode:<segmentation>:len=<class>:<failure>, or encode:any-segmentation:...
+// when every segmentation run for that length class failed the same way.
+func (c *checker) foldEncode() {
+	type lk struct{ lenClass, kind string }
+	segs := map[lk][]encKey{}
+	for k := range c.enc {
+		segs[lk{k.lenClass, k.kind}] = append(segs[lk{k.lenClass, k.kind}], k)
+	}
+	for g, ks := range segs {
+		all := len(ks) == len(c.encSegs[g.lenClass]) && len(ks) > 1
+		for _, k := range ks {
+			key := fmt.Sprintf("encode:%s:len=%s:%s", k.seg, k.lenClass, k.kind)
+			if all {
+				key = fmt.Sprintf("encode:any-segmentation:len=%s:%s", k.lenClass, k.kind)
+			}
+			a := c.enc[k]
+			if dst := c.viol[key]; dst == nil {
+				c.viol[key] = &agg{count: a.count, w: a.w}
+			} else {
+				dst.count += a.count
+				if less(a.w, dst.w) {
+					dst.w = a.w
+				}
+			}
+		}
+	}
+}
+
 func (c *checker) modelBug(text []byte, what, origin string) {
 	c.mu.Lock()
 	c.modelBugs++
@@ -81,6 +148,7 @@ func (c *checker) modelBug(text []byte, what, origin string) {
 func (c *checker) report() {
 	c.mu.Lock()
 	defer c.mu.Unlock()
+	c.foldEncode()
 	keys := make([]string, 0, len(c.viol))
 	for k := range c.viol {
 		keys = append(keys, k)
@@ -103,6 +171,24 @@ func (c *checker) report() {
 	c.r.Set("outcome_tables", c.tables)
 	if c.modelBugs > 0 {
 		c.r.Count("model_disagreements", int64(c.modelBugs))
+	}
+}
+
+// sample keeps at most budget literal cases per phase, one per outcome class.
+func (c *checker) sample(phase string, budget int, class string, v map[string]any) {
+	c.mu.Lock()
+	if c.sampled == nil {
+		c.sampled = map[string]int{}
+	}
+	ok := c.sampled[phase] < budget && c.sampled[phase+"\x00"+class] == 0
+	if ok {
+		c.sampled[phase]++
+		c.sampled[phase+"\x00"+class]++
+	}
+	c.mu.Unlock()
+	if ok {
+		v["phase"] = phase
+		c.r.SampleN(phase+":"+class, 1, v)
 	}
 }
 
